@@ -157,6 +157,13 @@ def rules(ctx):
         ctx.inst('R09.1', w, cs[0] if cs else 'def', ok,
                  "solve_%s_bruteforce -> (spin=%s, %s)" % (kind, flag, vf) if ok else
                  "solve_%s_bruteforce does not call _solve_bruteforce(model, all_solutions, valid, %s, %s)" % (kind, flag, vf))
+        # the wrapper hands its argument on as given (a filtered / rebuilt copy has other variables)
+        reb_ = [n for n in ast.walk(w.node) if isinstance(n, (ast.Assign, ast.AugAssign)) and any(
+            is_name(t_, w.params[0]) for t_ in (n.targets if isinstance(n, ast.Assign) else [n.target]))]
+        ctx.inst('R09.1', w, reb_[0] if reb_ else 'model argument of solve_%s_bruteforce' % kind, not reb_,
+                 "the model argument is not rebound" if not reb_ else
+                 "`%s` replaces the model by a derived one before solving: variables that occur only in dropped entries are no "
+                 "longer part of the assignments" % src(reb_[0])[:60])
         # default validity predicate accepts everything
         dflt = w.node.args.defaults
         okd = bool(dflt) and isinstance(dflt[-1], ast.Lambda) and is_const(dflt[-1].body, True)
@@ -372,6 +379,23 @@ def rules(ctx):
     # ---------------------------------------------------------------- R09.5
     from .C19 import offset_pairing
     offset_pairing(ctx, 'R09.5')
+    # the solve_bruteforce methods of the model classes leave their receiver alone (no refresh / clear / re-labelling first)
+    for c_ in sorted(x.name for x in P.subclasses_of('DictArithmetic')):
+        m_ = P.cls(c_).methods.get('solve_bruteforce')
+        if m_ is None:
+            continue
+        sn_ = R.self_name(m_)
+        MUT_ = {'refresh', 'clear', 'update', 'pop', 'popitem', 'setdefault', 'set_mapping', 'set_reverse_mapping', 'normalize', 'simplify',
+                '__init__', '__setitem__', '__delitem__', '__iadd__', '__isub__', '__imul__'}
+        mut_ = any(isinstance(c2, ast.Call) and isinstance(c2.func, ast.Attribute) and is_name(c2.func.value, sn_) and
+                   (c2.func.attr in MUT_ or c2.func.attr.startswith('add_constraint')) for c2 in ast.walk(m_.node)) or \
+            any(isinstance(t2, (ast.Subscript, ast.Attribute)) and is_name(t2.value, sn_) and isinstance(t2.ctx, (ast.Store, ast.Del))
+                for t2 in ast.walk(m_.node)) or \
+            any(isinstance(a2, ast.AugAssign) and is_name(a2.target, sn_) for a2 in ast.walk(m_.node))
+        ctx.inst('R09.5', m_, 'receiver of %s.solve_bruteforce' % c_, not mut_,
+                 "the model is not modified by solving it" if not mut_ else
+                 "%s.solve_bruteforce modifies the model it solves (a mutator such as refresh() / clear() / set_mapping() is called on "
+                 "it): mapping, caches or terms differ after the call" % c_)
 
     # ---------------------------------------------------------------- R09.6
     rets = [n for n in g.stmts() if isinstance(n, ast.Return) and not g.reaches(loop, n)]
